@@ -201,7 +201,7 @@ def one_case(ctx, k):
     os.makedirs(d, exist_ok=True)
     try:
         demux = rng.choice([None, None, None, "normal", "normal", "combinatorial"])
-        sc = F.observe(ctx, rng, d, dict(demux=demux, trace=True, unknown_name_p=0.1 if demux else 0.0, odd_names_p=0.15 if demux else 0.0))
+        sc = F.observe(ctx, rng, d, dict(demux=demux, trace=True, unknown_name_p=0.1 if demux else 0.0, odd_names_p=0.15 if demux else 0.0, revcomp_p=0.12))
         if sc is None:
             ctx.case(None)
             return
